@@ -102,6 +102,8 @@ def classify(e):
         return "emptyAssign"
     if "positive" in m:
         return "nonPos"
+    if isinstance(e, TypeError) and "not supported between instances of" in m and "'str'" in m:
+        return "unknownPool"        # a pool number handed over as text: compared with the number of pools, refused before anything happens
     if "pool" in m.lower() and ("unknown" in m.lower() or "no such" in m.lower() or "invalid" in m.lower() or "out of range" in m.lower()):
         return "unknownPool"
     return "other:" + type(e).__name__ + ":" + m[:60]
@@ -302,7 +304,9 @@ def setup_lines(sc):
 
 
 def mpool(pool):
-    """pool number for the model (a natural number): a negative number is just another pool that does not exist"""
+    """pool number for the model (a natural number): a negative number is just another pool that does not exist, and so is a number written as text"""
+    if isinstance(pool, str):
+        return 2000000 + int(pool)
     return pool if pool >= 0 else 1000000 - pool
 
 
